@@ -518,11 +518,16 @@ func (s *Store) hasExpired(cs *cachedSecret) bool {
 	} else if s.expiryAge <= 0 {
 		return false // no expiry age is defined
 	}
+	now := s.timeNow().UTC()
+	if cs.LastAccess > now.Unix() {
+		return false // stamped in the future (clock set back, damaged cache): not stale
+	}
 	// The last-access stamp has whole-second resolution: the read it records
 	// may have happened up to a second after the stamp, so do not count that
-	// second towards the age.
-	age := s.timeNow().UTC().Sub(cs.lastAccessTime()) - time.Second
-	return age > s.expiryAge
+	// second towards the age. (The age is not negative here, and it is only
+	// reduced once it is known to be positive, so nothing wraps around.)
+	age := now.Sub(cs.lastAccessTime())
+	return age > s.expiryAge && age-time.Second > s.expiryAge
 }
 
 // snapshotActive captures a point-in-time snapshot of the active names and
